@@ -897,7 +897,7 @@ Proof.
     destruct (al_vec _ _ _ _ _ _ _ _ _ Hw') as (l & _ & _ & body & -> & Hb).
     exists body. replace (N.of_nat (length body)) with (N.of_nat (length l)); [reflexivity|].
     rewrite Hb. cbn [wbytes]. lia.
-Time Qed.
+Qed.
 
 (* for an enum all of whose variants pass the symbolic check: whatever value is written, the four
    bytes after the tag hold the number of bytes that follow them (mod 2^32, which is exact for
